@@ -90,6 +90,12 @@ def build(m, assign, targets, light=False):
         return None, None  # cyclic link targets: not constructible
     for i, lb in labels:
         lb.node = nodes[i] if i % 4 == 0 else nodes[(i + 1) % m.n]
+    # attribute values that are hash-based containers of nodes (a set of the links watching a node, a dict keyed by nodes)
+    for i in range(m.n):
+        if assign[i] == "symlink" and targets[i][0] == "main" and not isinstance(nodes[targets[i][1]], (anytree.SymlinkNodeMixin, dict)):
+            tgt = nodes[targets[i][1]]
+            object.__getattribute__(tgt, "__dict__").setdefault("watchers", set()).add(nodes[i])
+            object.__getattribute__(tgt, "__dict__").setdefault("by_node", {})[nodes[i]] = i
     for i in range(m.n):
         if m.par[i] is not None:
             nodes[i].parent = nodes[m.par[i]]
@@ -113,7 +119,7 @@ def build(m, assign, targets, light=False):
 def own_vars(nd):
     try:
         d = object.__getattribute__(nd, "__dict__")
-        out = {k: v for k, v in d.items() if k not in BOOK and k != "target"}
+        out = {k: v for k, v in d.items() if k not in BOOK and k not in ("target", "watchers", "by_node")}
         if type(nd).__name__ == "PSlotExtra":
             out["<slot extra>"] = getattr(nd, "extra", "<lost>")
         if isinstance(nd, dict):
@@ -217,6 +223,13 @@ def check_copy(m, nodes, ext, entry, cp):
                 elif lc.node is not omap.get(id(lo.node)):
                     why.append("an attribute value of node %d that refers back to node %d refers to another object in the copy "
                                "(the copy is not one consistent object graph)" % (i, oidx.get(id(lo.node), -1)))
+    for i, nd in enumerate(nodes):
+        d = object.__getattribute__(nd, "__dict__") if hasattr(type(nd), "__dict__") and not isinstance(nd, pickcls.PLight) else {}
+        if "watchers" in d:
+            cd = object.__getattribute__(mapping[i], "__dict__")
+            want = {id(omap[id(w)]) for w in d["watchers"]}
+            if {id(w) for w in cd.get("watchers", ())} != want or {id(k_) for k_ in cd.get("by_node", {})} != want:
+                why.append("a set / dict of nodes stored as an attribute value of node %d does not hold the corresponding copies" % i)
     for i, nd in enumerate(nodes):
         if isinstance(nd, anytree.SymlinkNodeMixin):
             tgt = object.__getattribute__(nd, "__dict__")["target"]
